@@ -89,11 +89,27 @@ def run(ctx):
         elif k == 1:
             c["requested"] = c["requested"] + [[draw(st.sampled_from(["1.2.03", "abc.def", "1..2", "1.2." + "9" * 61])), ["1.2.840.10008.1.2"]]]
         elif k == 2:
-            c["rq_title"] = draw(st.sampled_from(["  PAD  ", "A\\B", "x" * 17, "", "   ", "ÄE"]))
+            t = draw(st.sampled_from(["  PAD  ", "A\\B", "x" * 17, "", "   ", "ÄE", "STORE_SCU" + " " * 10, " " * 9 + "LEADING_PAD", "ECHOSCU\n", "TAB\tTITLE", "SIXTEEN_CHARS_OK", " " + "x" * 16]))
+            if draw(st.booleans()):
+                c["rq_title"] = t
+            else:
+                c["called"] = t  # the title the requestor calls (ae_title= argument of associate)
         else:
             c["impl_version"] = draw(st.sampled_from(["", " ", "x" * 17, "ok"]))
         return c
 
+    @st.composite
+    def titles(draw):
+        """AE titles at the edge of what set_ae()/validate_ae accept: padding that pushes the length over 16, control characters"""
+        c = dict(draw(base))
+        pad = st.sampled_from(["", " ", "  ", " " * 7, " " * 10])
+        core_t = draw(st.sampled_from(["STORE_SCU", "A", "SIXTEEN_CHARS_OK", "FIFTEEN_CHARS_X", "x" * 17, "ECHOSCU\n", "TAB\tX", "A\\B", "ÄE", "a b"]))
+        t = draw(pad) + core_t + draw(pad)
+        which = draw(st.sampled_from(["rq_title", "called", "ac_title"]))
+        c[which] = t
+        return c
+
     ctx.hyp("wire", base, 150 if ctx.quick else 1000)
+    ctx.hyp("wire", titles(), 60 if ctx.quick else 400)
     ctx.hyp("wire", big(), 12 if ctx.quick else 100)
     ctx.hyp("wire", odd(), 60 if ctx.quick else 400)
